@@ -10,7 +10,7 @@ use crate::model_dec::algo_for;
 use serde_json::json;
 use std::time::Instant;
 
-pub const RULE: &str = "case = (a) decoder history with &mut str and String sinks whose previous contents are valid text made of 2-, 3- and 4-byte characters at every phase relative to the capacity boundary (so that `written` and `written+16` land inside an old character), also slice sinks; (b) mem::convert_utf16_to_str{,_partial}, convert_latin1_to_str{,_partial} (and the slice-writing / Cow-returning mem functions) with the same destinations and destination lengths 0..=sufficient; (c) the one-shot decode* methods on grammar streams; (d) reuse of a finished decoder (the documented panic is caught and the destination inspected). Oracle (invariant) = std::str::from_utf8 on the ENTIRE destination after every call (and after the caught panic), from_utf8 / decode_utf16 on dst[..written] and on the accumulated output, every returned Cow<str>/String re-validated. Non-trivial = destination longer than `written` holding multi-byte filler there (str/String sinks) or non-ASCII output (slice sinks); distinct = distinct case.";
+pub const RULE: &str = "case = (a) decoder history with &mut str and String sinks whose previous contents are valid text made of 2-, 3- and 4-byte characters at every phase relative to the capacity boundary (so that `written` and `written+16` land inside an old character), also slice sinks; (b) mem::convert_utf16_to_str{,_partial}, convert_latin1_to_str{,_partial} (and the slice-writing / Cow-returning mem functions) with the same destinations and destination lengths 0..=sufficient; (c) the one-shot decode* methods on grammar streams; (d) reuse of a finished decoder (the documented panic is caught and the destination inspected); (e) &mut str destinations of 0..=3 bytes (below the documented minimum: the call may panic or make no progress, the str must stay valid). Oracle (invariant) = std::str::from_utf8 on the ENTIRE destination after every call (and after the caught panic), from_utf8 / decode_utf16 on dst[..written] and on the accumulated output, every returned Cow<str>/String re-validated. Non-trivial = destination longer than `written` holding multi-byte filler there (str/String sinks) or non-ASCII output (slice sinks); distinct = distinct case.";
 
 fn one_shot_and_reuse(ctx: &Ctx) -> Stats {
     use proptest::strategy::Strategy;
@@ -100,6 +100,127 @@ fn one_shot_and_reuse(ctx: &Ctx) -> Stats {
     })
 }
 
+/// One undersized-destination history: `stream` cut at `cut` (cut == len: the end of the stream
+/// arrives as an empty final call), every call made on a `&mut str` of `dlen` (0..=3) bytes -
+/// below the documented 4-byte minimum, so the call may panic or report OutputFull without
+/// progress, but whatever it does the str must stay valid UTF-8.
+fn undersized_case(enc: &'static encoding_rs::Encoding, sniff: bool, raw: bool, stream: &[u8], cut: usize, dlen: usize, fill: u8, small: u8) -> Option<String> {
+    let mut d = if sniff { enc.new_decoder() } else { enc.new_decoder_without_bom_handling() };
+    let chunks: [(&[u8], bool); 2] = [(&stream[..cut], false), (&stream[cut..], true)];
+    for (ci, (chunk, last)) in chunks.iter().enumerate() {
+        let mut off = 0usize;
+        for _call in 0..12 {
+            // `small` selects which chunk(s) get the undersized destination (bit 0: first, bit 1: second);
+            // the other chunk is decoded into an ample one, which is how a decoder gets into a
+            // mid-sequence state before it meets the short destination
+            let dlen = if small & (1 << ci) != 0 { dlen } else { 64 };
+            let mut buf: Vec<u8> = filler_text(fill, ci, dlen).into_bytes();
+            let before = buf.clone();
+            let src = &chunk[off..];
+            let dsc = crate::guard::Desc { what: "decode_to_str* into an undersized &mut str", encoding: enc.name(), data: src.as_ptr(), len: src.len() };
+            let _g = crate::guard::enter(&dsc);
+            let r = fw::catch(|| {
+                // SAFETY: `buf` holds valid UTF-8 (filler_text)
+                let s = unsafe { std::str::from_utf8_unchecked_mut(&mut buf) };
+                if raw {
+                    let (r, read, written) = d.decode_to_str_without_replacement(src, s, *last);
+                    (matches!(r, encoding_rs::DecoderResult::InputEmpty), matches!(r, encoding_rs::DecoderResult::Malformed(..)), read, written)
+                } else {
+                    let (r, read, written, _) = d.decode_to_str(src, s, *last);
+                    (matches!(r, encoding_rs::CoderResult::InputEmpty), false, read, written)
+                }
+            });
+            if std::str::from_utf8(&buf).is_err() {
+                return Some(format!(
+                    "a {}-byte &mut str holding {:?} is left as invalid UTF-8 [{}] by decode_to_str{}(src = [{}], last = {}) ({}); bytes fed before: [{}]",
+                    dlen,
+                    String::from_utf8_lossy(&before),
+                    fw::hex(&buf),
+                    if raw { "_without_replacement" } else { "" },
+                    fw::hex(src),
+                    last,
+                    match &r {
+                        Ok(_) => "the call returned".to_string(),
+                        Err(p) => format!("the call panicked: {}", p),
+                    },
+                    fw::hex(&stream[..(if ci == 0 { off } else { cut + off })])
+                ));
+            }
+            match r {
+                // a panic on a destination below the documented minimum is a precondition panic; the
+                // decoder's state is unspecified afterwards, so the history ends here
+                Err(_) => return None,
+                Ok((input_empty, malformed, read, written)) => {
+                    if read > src.len() || written > dlen {
+                        return Some(format!("read {} of {} / written {} of {}", read, src.len(), written, dlen));
+                    }
+                    off += read;
+                    if input_empty {
+                        break;
+                    }
+                    if read == 0 && written == 0 && !malformed {
+                        // no progress: permitted below the minimum; nothing more to learn
+                        return None;
+                    }
+                }
+            }
+        }
+    }
+    None
+}
+
+fn undersized_str(ctx: &Ctx) -> Stats {
+    let all = encs::all();
+    let thorough = ctx.tier == fw::Tier::Thorough;
+    par_run(ctx, all.len() * 2, |part, st| {
+        let enc = all[part / 2];
+        let sniff = part % 2 == 1;
+        let algo = algo_for(enc);
+        let mut streams = hist::core_streams(algo, if thorough { 6 } else { 5 }, false);
+        if sniff {
+            for b in crate::gen::BOMISH {
+                for tail in [&b""[..], b"a", b"\xE4"] {
+                    streams.push([b, tail].concat());
+                }
+            }
+        }
+        for stream in &streams {
+            if fw::should_stop() {
+                return;
+            }
+            for cut in 0..=stream.len() {
+                for dlen in 0..=3usize {
+                    for raw in [false, true] {
+                        for fill in [1u8, 2, 0] {
+                          for small in [1u8, 2, 3] {
+                            st.evals += 1;
+                            if !stream.is_empty() {
+                                st.nontrivial_distinct();
+                            }
+                            st.class("undersized-str-destination-(0..=3-bytes)");
+                            if let Some(msg) = undersized_case(enc, sniff, raw, stream, cut, dlen, fill, small) {
+                                let sig = if msg.contains("the call panicked") { "C05:undersized-str:invalid-after-panic" } else { "C05:undersized-str:invalid-after-return" };
+                                if let Some(id) = fw::known_open_id(sig) {
+                                    st.known_hit(id);
+                                    continue;
+                                }
+                                st.violations.push(Violation {
+                                    msg: format!("{} [{}]: {}", enc.name(), if sniff { "sniffing" } else { "no BOM handling" }, msg),
+                                    sig: sig.into(),
+                                    case: json!({"kind": "c05_undersized", "encoding": encs::const_name(enc), "sniff": sniff, "raw": raw, "stream_hex": fw::hex(stream), "cut": cut, "dst_len": dlen, "fill": fill, "small_chunks": small}),
+                                });
+                                return;
+                            }
+                          }
+                        }
+                    }
+                }
+            }
+        }
+        st.sample(1, || json!({"kind": "c05_undersized", "encoding": encs::const_name(enc), "sniff": sniff, "streams": streams.len(), "dst_len": "0..=3", "cuts": "every position incl. end (empty final call)"}));
+    })
+}
+
 fn dec_check<'a>(ctx: &Ctx) -> DecCheck<'a> {
     let mut e = encs::multibyte();
     e.extend(encs::single_byte_sample());
@@ -128,6 +249,10 @@ pub fn run(ctx: &Ctx) -> i32 {
     let t0 = Instant::now();
     let mut st = one_shot_and_reuse(ctx);
     if !fw::should_stop() {
+        st.merge(undersized_str(ctx));
+        st.exhaustive.push("40 encodings x with/without BOM sniffing x every atom and atom pair (up to 5 bytes) x every cut incl. the empty final call x &mut str destinations of 0..=3 bytes for the first / second / both chunks (64 bytes otherwise) x 3 filler texts x decode_to_str / decode_to_str_without_replacement".into());
+    }
+    if !fw::should_stop() {
         let fam = MemFamily {
             prop: "C05",
             fns: vec![MemFn::Utf16ToStrPartial, MemFn::Utf16ToStr, MemFn::Latin1ToStrPartial, MemFn::Latin1ToStr, MemFn::Utf16ToUtf8Partial, MemFn::Utf16ToUtf8, MemFn::Latin1ToUtf8Partial, MemFn::Latin1ToUtf8, MemFn::DecodeLatin1, MemFn::Utf8ToUtf16, MemFn::StrToUtf16, MemFn::EnsureUtf16Validity],
@@ -149,6 +274,20 @@ pub fn replay(case: &serde_json::Value) -> Option<Vec<Violation>> {
     match case.get("kind").and_then(|k| k.as_str()) {
         Some("mem") => memfam::replay_mem(case, "C05", false),
         Some("dec_history") => dech::replay_with(case, &dech::verdict_c05),
+        Some("c05_undersized") => {
+            let enc = encs::by_const(case.get("encoding")?.as_str()?)?;
+            let stream = fw::unhex(case.get("stream_hex")?.as_str()?);
+            let sniff = case.get("sniff")?.as_bool()?;
+            let raw = case.get("raw")?.as_bool()?;
+            let cut = (case.get("cut")?.as_u64()? as usize).min(stream.len());
+            let dlen = case.get("dst_len")?.as_u64()? as usize;
+            let fill = case.get("fill")?.as_u64()? as u8;
+            let small = case.get("small_chunks").and_then(|x| x.as_u64()).unwrap_or(3) as u8;
+            Some(match undersized_case(enc, sniff, raw, &stream, cut, dlen, fill, small) {
+                None => vec![],
+                Some(msg) => vec![Violation { msg: format!("{}: {}", enc.name(), msg), sig: "C05:undersized-str".into(), case: case.clone() }],
+            })
+        }
         _ => None,
     }
 }
